@@ -4,6 +4,7 @@ import (
 	"fmt"
 	"math"
 	"reflect"
+	"runtime"
 	"sort"
 	"strings"
 	"sync"
@@ -446,4 +447,66 @@ func SortedKeys[V any](m map[string]V) []string {
 	}
 	sort.Strings(ks)
 	return ks
+}
+
+// TrySite runs f; on a panic it returns the message and the innermost frame of
+// package jsonapi on the panicking stack (function name only: line numbers of
+// the instrumented copy are meaningless).
+func TrySite(f func()) (msg, site string) {
+	defer func() {
+		if r := recover(); r != nil {
+			msg = fmt.Sprint(r)
+			if msg == "" {
+				msg = "panic"
+			}
+			site = "unknown"
+			pcs := make([]uintptr, 64)
+			n := runtime.Callers(2, pcs)
+			frames := runtime.CallersFrames(pcs[:n])
+			for {
+				fr, more := frames.Next()
+				if i := strings.Index(fr.Function, "mfcochauxlaberge/jsonapi."); i >= 0 && !strings.Contains(fr.Function, ".mc") {
+					site = fr.Function[i+len("mfcochauxlaberge/jsonapi."):]
+					break
+				}
+				if !more {
+					break
+				}
+			}
+		}
+	}()
+	f()
+	return "", ""
+}
+
+// Slug shortens a panic message into a signature component (digits -> N).
+func Slug(s string) string {
+	var b strings.Builder
+	for _, c := range s {
+		switch {
+		case c >= '0' && c <= '9':
+			if !strings.HasSuffix(b.String(), "N") {
+				b.WriteByte('N')
+			}
+		case c >= 'a' && c <= 'z', c >= 'A' && c <= 'Z':
+			b.WriteRune(c)
+		default:
+			if !strings.HasSuffix(b.String(), "-") {
+				b.WriteByte('-')
+			}
+		}
+		if b.Len() >= 60 {
+			break
+		}
+	}
+	return strings.Trim(b.String(), "-")
+}
+
+// Slug2 is Slug of the first two words of a message.
+func Slug2(s string) string {
+	w := strings.Fields(s)
+	if len(w) > 2 {
+		w = w[:2]
+	}
+	return Slug(strings.Join(w, " "))
 }
